@@ -17,7 +17,9 @@ RULE = ("Hypothesis constructs scripts with at least one for-loop: int/float ran
         "reference interpreter's operations; the loop variable is absent from variables afterwards. Negative variants: a "
         "statement after the loop mentioning the loop variable must raise BlackbirdSyntaxError; a listed value not of the loop "
         "type (1.5 for int, a string for float/int, 2 for bool, a number for str) must raise. Non-trivial = body >= 2 statements "
-        "or a statement after the loop or an empty range. Distinct = SHA-1 of script text.")
+        "or a statement after the loop or an empty range. Distinct = SHA-1 of script text."
+        " After the comparison the same in-place edit (first mode += 1000*(k+1) for operation k) is applied to both"
+        " programs and the modes compared again (operations produced by a loop are separate objects).")
 ASSUMPTIONS = ["reference interpreter", "loop-variable names are not declared elsewhere (as the property states)"]
 BUDGET = {"quick": (1500, 4), "thorough": (40000, 16)}
 
